@@ -56,6 +56,7 @@ func ruleC02(c *Check) {
 	c.contextFieldRules("C02.5", map[string]bool{"counts": true})
 	c.paramSetExact("C02.3")
 	c.fractionValidators("C02.3")
+	c.withdrawRules("C02")
 	c.feeWriters("C02")
 	c.slashTriggerOnly("C02.1")
 	c.schemaPredicate("C02.1", c.typesName("ValidateResponseOutput"), "types.OutputSchema")
@@ -77,6 +78,14 @@ func ruleC06(c *Check) {
 	c.contextFieldRules("C06", map[string]bool{"state": true})
 	c.pricingTextPairs("C06.2")
 	c.callbackRules("C06")
+	if gb := c.getterByType("ServiceBinding"); gb != nil {
+		for _, s := range c.slashFuncs() {
+			c.slashInternals(s, gb)
+		}
+	}
+	c.volumeTiers("C06.6")
+	c.timeWindow("C06.6")
+	c.priceSkeleton("C06.6")
 }
 
 func ruleC07(c *Check) {
@@ -93,6 +102,7 @@ func ruleC07(c *Check) {
 	c.moduleServiceNotSuper("C07.7")
 	c.discountPattern("C07.9")
 	c.tiersOrdered("C07.10")
+	c.addressRoles("C07.11")
 	// "never less than one unit of the base denomination": the price routine reads the denomination off the stored base price, which the parser never leaves empty
 	c.priceNonEmpty("C07.8", c.handFuncs("keeper"))
 }
